@@ -2,3 +2,15 @@ import importlib.util, os
 _spec = importlib.util.spec_from_file_location("_sched", os.path.join(os.path.dirname(os.path.abspath(__file__)), "_sched.py"))
 _m = importlib.util.module_from_spec(_spec); _spec.loader.exec_module(_m)
 CONFIG = _m.config("C05")
+
+# ---- merged by the coordinator: Platform area (platform.NewKey, platform.Trie, DemultiplexingActionRouter)
+import json as _jsonp, os as _osp
+_pl = _jsonp.load(open(_osp.path.join(_osp.path.dirname(_osp.path.abspath(__file__)), "snippets", "platform.json")))
+CONFIG["coq_dirs"] = CONFIG["coq_dirs"] + _pl["coq_dirs"]
+CONFIG["coq_targets"] = CONFIG["coq_targets"] + _pl["coq_targets"]
+CONFIG["properties_files"] = CONFIG["properties_files"] + _pl["properties_files"]
+CONFIG["required_theorems"] = CONFIG["required_theorems"] + list(_pl["required_theorems"])
+CONFIG["harnesses"] = CONFIG["harnesses"] + [_pl["harness"]]
+for _k in ("trusted_base", "assumptions"):
+    _v = _pl.get(_k, [])
+    CONFIG[_k] = CONFIG.get(_k, []) + (_v if isinstance(_v, list) else [_v])
